@@ -76,6 +76,39 @@ var mapModel = porcupine.Model{
 	DescribeOperation: func(input, output interface{}) string { return input.(hop).String() },
 }
 
+// hybridModel: the register model for a two-tier cache (C14). It differs from
+// mapModel in one rule: a miss is always legal and leaves the state unchanged.
+// In a single-tier cache a miss means the value is gone for good, so a later
+// hit of it is a resurrection; with a secondary tier a spurious miss (legal by
+// the property) may be followed by a correct hit of the still-current value.
+// What stays illegal is what the property names: a hit older than the last
+// completed Set, or after a completed Delete.
+var hybridModel = porcupine.Model{
+	Init: mapModel.Init,
+	Step: func(state, input, output interface{}) (bool, interface{}) {
+		st := state.(int64)
+		o := input.(hop)
+		switch o.Kind {
+		case opSet, opLoad:
+			return true, o.Val
+		case opDelete:
+			return true, int64(0)
+		case opGetMiss, opSetFalse:
+			return true, st
+		case opGetHit, opShared, opRange:
+			return st == o.Val, st
+		}
+		return true, st
+	},
+	Equal:             mapModel.Equal,
+	DescribeOperation: mapModel.DescribeOperation,
+}
+
+func checkKeyWith(model porcupine.Model, ops []hop, timeout time.Duration) porcupine.CheckResult {
+	res, _ := porcupine.CheckOperationsVerbose(model, toPorc(ops), timeout)
+	return res
+}
+
 func toPorc(ops []hop) []porcupine.Operation {
 	out := make([]porcupine.Operation, len(ops))
 	for i, o := range ops {
@@ -104,10 +137,12 @@ func splitByKey(ops []hop) map[int][]hop {
 // shrink reduces an illegal per-key history to a small illegal core. Removing
 // a write also removes the reads that observed it (reads-from closure), so the
 // core never contains a read of a value whose write was dropped.
-func shrink(ops []hop) []hop {
+func shrink(ops []hop) []hop { return shrinkWith(mapModel, ops) }
+
+func shrinkWith(model porcupine.Model, ops []hop) []hop {
 	cur := append([]hop(nil), ops...)
 	sort.Slice(cur, func(i, j int) bool { return cur[i].Call < cur[j].Call })
-	illegal := func(h []hop) bool { return checkKey(h, 5*time.Second) == porcupine.Illegal }
+	illegal := func(h []hop) bool { return checkKeyWith(model, h, 5*time.Second) == porcupine.Illegal }
 	if !illegal(cur) {
 		return cur
 	}
